@@ -16,6 +16,7 @@ def stepOf (s : String) : Option StepK :=
   | ["agg2"] => some .agg2
   | ["aggpct"] => some .aggpct
   | ["aggnone"] => some .aggnone
+  | ["loopout"] => some .loopOut
   | ["limit", k] => k.toNat?.map .limit
   | ["skip", k] => k.toNat?.map .skip
   | ["agghist", k] => k.toNat?.map .agghist
